@@ -523,6 +523,35 @@ func rawPaths(run *evid.Run, n int) {
 				run.Violation("bad-push-left-content/raw/manifest-put-wrong-digest", "after a refused manifest PUT the manifest resolves under "+dg, w)
 			}
 		}
+		// manifest PUT by tag with a streamed body (no Content-Length), of ordinary and of very large
+		// size: either refused, or what the tag then serves is what was sent
+		{
+			size := []int{len(mf), 1000, 70000}[i%3]
+			if i%20 == 7 {
+				size = []int{1<<20 + 1, 4<<20 + 1135, 8<<20 + 3}[(i/20)%3]
+			}
+			big := bytes.Repeat([]byte("streamed manifest body "), size/23+1)[:size]
+			copy(big, fmt.Sprintf("streamed %d %d ", i, size))
+			tag := fmt.Sprintf("streamed%d", i)
+			req, _ := http.NewRequest("PUT", "http://registry.test/v2/"+repo+"/manifests/"+tag, io.MultiReader(bytes.NewReader(big)))
+			req.ContentLength = -1
+			req.Header.Set("Content-Type", "application/x-opaque")
+			sresp, serr := tr.RoundTrip(req)
+			sw := map[string]any{"content_len": size, "digest": model.Digest(big), "tag": tag, "transfer": "chunked (no Content-Length)"}
+			run.Count("streamed_manifest_puts", 1)
+			if serr == nil && sresp.StatusCode == 201 {
+				run.Count("pushes_accepted", 1)
+				run.Distinct("push/raw-streamed-manifest/len=" + lenClass(size))
+				c := &checker{run: run, kind: "mem-behind-raw-http", reg: mem}
+				r, gerr := mem.GetTag(bg, repo, tag)
+				c.completeRead("GetTag-after-streamed-PUT", r, gerr, big, model.Digest(big), sw)
+			} else {
+				run.Count("streamed_manifest_puts_refused", 1)
+				if _, gerr := mem.ResolveTag(bg, repo, tag); gerr == nil {
+					run.Violation("bad-push-left-content/raw/streamed-manifest-refused", "a streamed manifest PUT was refused, yet its tag resolves", sw)
+				}
+			}
+		}
 		// manifest PUT by the right digest works and reads back
 		resp, err = do("PUT", "/v2/"+repo+"/manifests/"+model.Digest(mf), mf, "application/x-opaque")
 		if err == nil && resp.StatusCode == 201 {
